@@ -12,7 +12,7 @@ DOCS = {
     "empty": "", "one": "a", "one-nl": "a\n", "para": "# a\n\ntext\n", "nofinal": "# a\n\ntext", "crlf": "# a\r\n\r\nb\r\n",
     "pragma-only": "<!-- pyml disable-next-line md041-->\n", "pragma": "# a\n<!-- pyml disable-next-line md009-->\nb  \n",
     "blank": "\n", "list": "- a\n- b\n\n1. c\n", "code": "```py\nx\n```\n", "lv0": "# a\n\nb   \n", "lv1": "#  a\n", "lv01": "#  a\n\nb   \n",
-    "lv2": "# a\n\n- x\n  * y\n", "lv012": "#  a\n\n```\nx\n```\n\n~~~\ny\n~~~\n\nb   \n", "tab": "a\tb\n", "multi": "a\n\n\n\nb\n",
+    "formfeed": "# a\n\nb\x0cc\nd\u2028e\n", "lv2": "# a\n\n- x\n  * y\n", "lv012": "#  a\n\n```\nx\n```\n\n~~~\ny\n~~~\n\nb   \n", "tab": "a\tb\n", "multi": "a\n\n\n\nb\n",
 }
 ALLCB = ("start", "token", "line", "complete")
 
